@@ -145,7 +145,7 @@ def block (j : Json) : P Block := do
            sources := ← (← arr (← field j "sources")).mapM source }
 
 def file (j : Json) : P File := do
-  return { createdAt := ← int (← field j "created_at"), blocks := ← (← arr (← field j "blocks")).mapM block,
+  return { createdAt := ← optInt (← field j "created_at"), blocks := ← (← arr (← field j "blocks")).mapM block,
            sections := ← (← arr (← field j "sections")).mapM section_ }
 
 def kindStr : Kind → String
